@@ -14,9 +14,10 @@ pub fn def() -> CheckDef {
         meta: CheckMeta {
             id: "C13",
             level: "exploration",
-            rule: "orchestrations of 2-3 worker processes on one path (file existing or not yet created); each worker opens the database, reads all marker keys, commits its own marker, holds the database for a generated time and closes. Generated: start order and offsets (0-40 ms), hold times (0-25 ms), and per worker an optional gate at a libc boundary (before open64, after open64 returned, before / after the file-size query (statx), the 1st/2nd write of the creator, fsync, mmap64, close) at which the LD_PRELOAD shim parks the process until the orchestrator releases it; all gate choices x release orders for two processes; for three: structured chains (A parked while holding, B queued behind it, C started only after A or B was released and has closed) and seeded samples. A worker that does not reach its gate within a timeout is taken to be waiting for the kernel lock and the orchestrator moves on: timing decides which interleaving is produced, never the verdict. Oracle from CLOCK_MONOTONIC timestamps taken by the workers (open returned / about to close): the intervals are pairwise disjoint; every worker sees the marker of every worker whose interval ended before its own began; every worker exits 0 (an Err or panic from open is a failure to wait); each worker also churns a bucket of its own and runs DB::check(); in a third of the cases a worker also reads its own file through a second descriptor while it holds the database (a backup copy or size probe, which must not let the next opener in), in a quarter a worker clones its handle, drops the original and goes on with the clone, and in a quarter a worker opens the file through a symbolic link; and after all have closed the file must still hold every marker and every worker's data and pass the independent parser. Non-trivial = orchestration in which a second open was issued while another process held the database or was creating it. Distinct = hash of the orchestration.",
+            rule: "orchestrations of 2-3 worker processes on one path (file existing or not yet created); each worker opens the database, reads all marker keys, commits its own marker, holds the database for a generated time and closes. Generated: start order and offsets (0-40 ms), hold times (0-25 ms), and per worker an optional gate at a libc boundary (before open64, after open64 returned, before / after the file-size query (statx), the 1st/2nd write of the creator, fsync, mmap64, close) at which the LD_PRELOAD shim parks the process until the orchestrator releases it; all gate choices x release orders for two processes; for three: structured chains (A parked while holding, B queued behind it, C started only after A or B was released and has closed) and seeded samples. A worker that does not reach its gate within a timeout is taken to be waiting for the kernel lock and the orchestrator moves on: timing decides which interleaving is produced, never the verdict. Oracle from CLOCK_MONOTONIC timestamps taken by the workers (open returned / about to close): the intervals are pairwise disjoint; every worker sees the marker of every worker whose interval ended before its own began; every worker exits 0 (an Err or panic from open is a failure to wait); each worker also churns a bucket of its own and runs DB::check(); in a third of the cases a worker also reads its own file through a second descriptor while it holds the database (a backup copy or size probe, which must not let the next opener in), in a quarter a worker clones its handle, drops the original and goes on with the clone, and in a quarter a worker opens the file through a symbolic link; a family of waiters (and a quarter of the sampled later openers) has a SIGUSR1 handler installed without SA_RESTART and receives 1-12 signals, each sent only while /proc/self/task/<tid>/syscall shows the thread inside flock(2), i.e. while it waits for the holder; an open that returns an Interrupted I/O error is retried by the worker as an application would (that is not a failure: the opener is not inside), any other error is; and after all have closed the file must still hold every marker and every worker's data and pass the independent parser. Non-trivial = orchestration in which a second open was issued while another process held the database or was creating it. Distinct = hash of the orchestration.",
             assumptions: &[
                 "flock itself is a raw syscall invisible to the shim; its effect is observed",
+                "signals are delivered only while the opener is blocked in flock (checked through /proc immediately before pthread_kill); a signal that lands just after the lock was granted meets only calls on a regular file, which do not fail with EINTR",
                 "three processes are sampled, not enumerated",
             ],
         },
@@ -43,6 +44,10 @@ pub struct ProcSpec {
     /// the process opens the database through a symbolic link to the file
     #[serde(default)]
     pub via_symlink: bool,
+    /// number of signals (handler installed without SA_RESTART) sent to the process while it is
+    /// blocked in flock(2) inside `open`; an open that fails with `Interrupted` is retried
+    #[serde(default)]
+    pub intr: u32,
 }
 
 #[derive(Serialize, Deserialize, Clone, Debug, PartialEq, Eq, Hash)]
@@ -61,6 +66,12 @@ pub struct ProcReport {
     pub t_close: u64,
     pub seen: Vec<String>,
     pub err: Option<String>,
+    /// signals that were sent while the process was blocked in flock(2)
+    #[serde(default)]
+    pub intr_sent: u32,
+    /// opens that returned `Interrupted` and were retried
+    #[serde(default)]
+    pub intr_retries: u32,
 }
 
 fn now_ns() -> u64 {
@@ -69,6 +80,64 @@ fn now_ns() -> u64 {
         libc::clock_gettime(libc::CLOCK_MONOTONIC, &mut ts);
     }
     ts.tv_sec as u64 * 1_000_000_000 + ts.tv_nsec as u64
+}
+
+extern "C" fn on_sigusr1(_: libc::c_int) {}
+
+/// Signals the calling thread with SIGUSR1 (handler without SA_RESTART) up to `k` times, each time
+/// only when /proc says the thread is inside the flock system call, i.e. waiting for the holder.
+struct Interrupter {
+    stop: std::sync::Arc<std::sync::atomic::AtomicBool>,
+    sent: std::sync::Arc<std::sync::atomic::AtomicU32>,
+    h: Option<std::thread::JoinHandle<()>>,
+}
+
+impl Interrupter {
+    fn start(k: u32) -> Interrupter {
+        use std::sync::atomic::{AtomicBool, AtomicU32, Ordering};
+        let stop = std::sync::Arc::new(AtomicBool::new(false));
+        let sent = std::sync::Arc::new(AtomicU32::new(0));
+        let (tid, pth) = unsafe {
+            let mut sa: libc::sigaction = std::mem::zeroed();
+            sa.sa_sigaction = on_sigusr1 as extern "C" fn(libc::c_int) as usize;
+            sa.sa_flags = 0;
+            libc::sigemptyset(&mut sa.sa_mask);
+            libc::sigaction(libc::SIGUSR1, &sa, std::ptr::null_mut());
+            (libc::syscall(libc::SYS_gettid) as i64, libc::pthread_self())
+        };
+        let (stop2, sent2) = (stop.clone(), sent.clone());
+        let h = std::thread::spawn(move || {
+            // the helper itself never takes the signal
+            unsafe {
+                let mut set: libc::sigset_t = std::mem::zeroed();
+                libc::sigemptyset(&mut set);
+                libc::sigaddset(&mut set, libc::SIGUSR1);
+                libc::pthread_sigmask(libc::SIG_BLOCK, &set, std::ptr::null_mut());
+            }
+            let path = format!("/proc/self/task/{}/syscall", tid);
+            let want = format!("{} ", libc::SYS_flock);
+            while !stop2.load(Ordering::SeqCst) && sent2.load(Ordering::SeqCst) < k {
+                let in_flock = std::fs::read_to_string(&path).map(|s| s.starts_with(&want)).unwrap_or(false);
+                if in_flock && !stop2.load(Ordering::SeqCst) {
+                    unsafe {
+                        libc::pthread_kill(pth, libc::SIGUSR1);
+                    }
+                    sent2.fetch_add(1, Ordering::SeqCst);
+                    std::thread::sleep(Duration::from_micros(1500));
+                } else {
+                    std::thread::sleep(Duration::from_micros(200));
+                }
+            }
+        });
+        Interrupter { stop, sent, h: Some(h) }
+    }
+    fn finish(mut self) -> u32 {
+        self.stop.store(true, std::sync::atomic::Ordering::SeqCst);
+        if let Some(h) = self.h.take() {
+            let _ = h.join();
+        }
+        self.sent.load(std::sync::atomic::Ordering::SeqCst)
+    }
 }
 
 /// Worker side: `jv worker proc <db> <id> <hold_ms> <out.json>`
@@ -83,11 +152,24 @@ pub fn worker(args: &[String]) -> i32 {
     let peek = args.iter().skip(5).any(|a| a == "peek");
     // the database handle is cloned and the original dropped at once; the clone is used from then on
     let clone_drop = args.iter().skip(5).any(|a| a == "clone");
+    let intr: u32 = args.iter().skip(5).find_map(|a| a.strip_prefix("intr=").and_then(|v| v.parse().ok())).unwrap_or(0);
     let mut rep = ProcReport { id, ..Default::default() };
     rep.t_call = now_ns();
     let r = catch(|| -> Result<(), String> {
-        let db = jammdb::OpenOptions::new().pagesize(1024).num_pages(16).open(&db_path).map_err(|e| format!("open: {}", e))?;
+        // an application whose signal handlers are installed without SA_RESTART retries an open
+        // that was interrupted while it waited for the lock
+        let interrupter = if intr > 0 { Some(Interrupter::start(intr)) } else { None };
+        let db = loop {
+            match jammdb::OpenOptions::new().pagesize(1024).num_pages(16).open(&db_path) {
+                Ok(db) => break db,
+                Err(jammdb::Error::Io(e)) if intr > 0 && e.kind() == std::io::ErrorKind::Interrupted && rep.intr_retries < 10_000 => rep.intr_retries += 1,
+                Err(e) => return Err(format!("open: {}", e)),
+            }
+        };
         rep.t_open = now_ns();
+        if let Some(i) = interrupter {
+            rep.intr_sent = i.finish();
+        }
         let db = if clone_drop {
             let c = db.clone();
             drop(db);
@@ -195,6 +277,9 @@ pub fn run_case(case: &C13Case, dir: &Path) -> Result<Orchestration, Failure> {
         }
         if p.clone_drop {
             cmd.arg("clone");
+        }
+        if p.intr > 0 {
+            cmd.arg(format!("intr={}", p.intr));
         }
         cmd.env("LD_PRELOAD", &shim).env("JV_SHIM_DB", used_path).env("RUST_BACKTRACE", "0").env_remove("JV_SHIM_LOG");
         cmd.stdout(Stdio::null()).stderr(Stdio::null());
@@ -414,8 +499,8 @@ fn shard(ctx: &ShardCtx, known: &Known) -> ShardOut {
                     cases.push(C13Case {
                         file_exists: exists,
                         procs: vec![
-                            ProcSpec { gate: g0.clone(), hold_ms: rng.below(20) as u32, start_delay_ms: 0, start_after_release_of: None, peek: k % 3 == 0, clone_drop: k % 4 == 1, via_symlink: k % 6 == 5 },
-                            ProcSpec { gate: g1.clone(), hold_ms: rng.below(20) as u32, start_delay_ms: rng.below(5) as u32, start_after_release_of: None, peek: k % 5 == 0, clone_drop: k % 7 == 2, via_symlink: k % 4 == 3 },
+                            ProcSpec { gate: g0.clone(), hold_ms: rng.below(20) as u32, start_delay_ms: 0, start_after_release_of: None, peek: k % 3 == 0, clone_drop: k % 4 == 1, via_symlink: k % 6 == 5, intr: 0 },
+                            ProcSpec { gate: g1.clone(), hold_ms: rng.below(20) as u32, start_delay_ms: rng.below(5) as u32, start_after_release_of: None, peek: k % 5 == 0, clone_drop: k % 7 == 2, via_symlink: k % 4 == 3, intr: 0 },
                         ],
                         release: if order == 0 { vec![0, 1] } else { vec![1, 0] },
                     });
@@ -436,13 +521,33 @@ fn shard(ctx: &ShardCtx, known: &Known) -> ShardOut {
                     cases.push(C13Case {
                         file_exists: exists,
                         procs: vec![
-                            ProcSpec { gate: ga.to_string(), hold_ms: 5, start_delay_ms: 0, start_after_release_of: None, peek, clone_drop: !peek && after == 1, via_symlink: false },
-                            ProcSpec { gate: gb.to_string(), hold_ms: 60, start_delay_ms: 0, start_after_release_of: None, peek, clone_drop: !peek && after == 1, via_symlink: k % 3 == 0 },
-                            ProcSpec { gate: String::new(), hold_ms: 5, start_delay_ms: 0, start_after_release_of: Some(after), peek: false, clone_drop: false, via_symlink: k % 6 == 0 },
+                            ProcSpec { gate: ga.to_string(), hold_ms: 5, start_delay_ms: 0, start_after_release_of: None, peek, clone_drop: !peek && after == 1, via_symlink: false, intr: 0 },
+                            ProcSpec { gate: gb.to_string(), hold_ms: 60, start_delay_ms: 0, start_after_release_of: None, peek, clone_drop: !peek && after == 1, via_symlink: k % 3 == 0, intr: if k % 4 == 2 { 5 } else { 0 } },
+                            ProcSpec { gate: String::new(), hold_ms: 5, start_delay_ms: 0, start_after_release_of: Some(after), peek: false, clone_drop: false, via_symlink: k % 6 == 0, intr: if k % 5 == 1 { 7 } else { 0 } },
                         ],
                         release: vec![0, 1, 2],
                     });
                 }
+            }
+        }
+    }
+    // a waiter that is signalled while it is blocked in flock(2): the holder is parked at a gate (or
+    // holds for 60 ms), the waiter's handler has no SA_RESTART, 1..12 signals arrive during the wait
+    for exists in [false, true] {
+        for ga in ["close:1", "mmap:1", "fsync:1", ""] {
+            for intr in [1u32, 2, 3, 4, 5, 6, 8, 12] {
+                k += 1;
+                if k % ctx.nshards != ctx.shard {
+                    continue;
+                }
+                cases.push(C13Case {
+                    file_exists: exists,
+                    procs: vec![
+                        ProcSpec { gate: ga.to_string(), hold_ms: if ga.is_empty() { 60 } else { 10 }, start_delay_ms: 0, start_after_release_of: None, peek: k % 3 == 0, clone_drop: false, via_symlink: false, intr: 0 },
+                        ProcSpec { gate: String::new(), hold_ms: 5, start_delay_ms: if ga.is_empty() { 15 } else { 0 }, start_after_release_of: None, peek: false, clone_drop: k % 4 == 0, via_symlink: k % 5 == 0, intr },
+                    ],
+                    release: vec![0, 1],
+                });
             }
         }
     }
@@ -461,6 +566,7 @@ fn shard(ctx: &ShardCtx, known: &Known) -> ShardOut {
                 peek: rng.chance(1, 3),
                 clone_drop: rng.chance(1, 4),
                 via_symlink: rng.chance(1, 4),
+                intr: if i > 0 && rng.chance(1, 4) { 1 + rng.below(10) as u32 } else { 0 },
             })
             .collect();
         let mut release: Vec<usize> = (0..n).collect();
@@ -480,6 +586,12 @@ fn shard(ctx: &ShardCtx, known: &Known) -> ShardOut {
                 let mut classes = vec![if case.file_exists { "file exists".to_string() } else { "file not yet created".to_string() }, format!("{} processes", case.procs.len())];
                 if case.procs.iter().any(|p| !p.gate.is_empty()) {
                     classes.push("forced ordering (gate)".into());
+                }
+                if o.reports.iter().flatten().any(|r| r.intr_sent > 0) {
+                    classes.push("opener signalled while blocked in flock".into());
+                }
+                if o.reports.iter().flatten().any(|r| r.intr_retries > 0) {
+                    classes.push("open returned Interrupted and was retried".into());
                 }
                 record_case(ctx, &mut out, known, "c13", &case, CaseVerdict { failure: f, nontrivial: o.contended, classes });
             }
